@@ -31,6 +31,11 @@ pub const fn panic_unlimited_precision() -> ! {
     panic!("precision cannot be 0 (unlimited) for this operation!")
 }
 
+/// Panics when the exponent of a result does not fit in an isize
+pub(crate) fn panic_exponent_overflow() -> ! {
+    panic!("the exponent of the result is too large!")
+}
+
 /// Panics when the base of the power operation is negative
 pub const fn panic_power_negative_base() -> ! {
     panic!("powering on negative bases could result in complex number!")
